@@ -308,7 +308,7 @@ def p_chan(ctx, tier):
     configs = [("unbounded", 2 ** 64 - 1, P.QCAP), ("sync0", 0, 0), ("sync1", 1, 1)]
     for cname, cap, bound in configs:
         maxb = min(batch_limit(facts, cap), 3)
-        nmsgs = 2
+        nmsgs = 2 if tier == "quick" else 3
         # ---- sender thread program
         sops = []
         for mi in range(nmsgs):
@@ -480,7 +480,7 @@ def p_exec(ctx, tier):
     facts = exec_facts(ctx)
     out = {"queries": 0, "solver_s": 0.0}
     failing, cex, witness = [], "", False
-    rounds, maxb = 3, 2
+    rounds, maxb = (3, 2) if tier == "quick" else (4, 2)
 
     def waker(name, val):
         ops = []
@@ -659,7 +659,7 @@ def p_sig(ctx, tier):
     facts = sig_facts(ctx)
     out = {"queries": 0, "solver_s": 0.0}
     failing, cex, witness = [], "", False
-    iters = 3
+    iters = 3 if tier == "quick" else 4
     # ---------------- block_on
     woken, notw = facts["bo_woken"], facts["bo_notwoken"]
     # the common prefix up to and including the read of future_ready
